@@ -144,7 +144,7 @@ Definition union_update (u : cpcu) (sk : cpc) : outcome cpcu :=
 Definition union_to_sketch (u : cpcu) : outcome cpc :=
   match u_st u with
   | UAcc sk =>
-      if cpc_is_empty sk then cpc_new (u_lgk u)
+      if cpc_is_empty sk then obind (cpc_new (u_lgk u)) (fun s => Ok (set_merge s true))   (* EMPTY_MERGED *)
       else if negb (cpc_flavor sk =? SPARSE) then Stuck                      (* assert_eq!(flavor, Sparse) *)
       else Ok (set_merge sk true)
   | UMat m =>
@@ -154,7 +154,7 @@ Definition union_to_sketch (u : cpcu) : outcome cpc :=
       let c := count_bits_set_in_matrix m in
       let off := determine_correct_offset lgk c in
       (* PairTable::new(max(lg_k - 4, 2), 6 + lg_k): its asserts hold for lg_k in 4..=26 *)
-      obind (from_matrix TS_FF TS_FF2 off m) (fun '(win, tab, fic) =>
+      obind (from_matrix lgk TS_FF TS_FF2 off m) (fun '(win, tab, fic) =>
       Ok (mkCpc lgk fic c (Some tab) off win true (c_kxp s0) (c_hip s0))))
   end.
 
